@@ -43,6 +43,20 @@ func (w *World) checkNode(n *Node, st *State, phase string) {
 	if w.stop {
 		return
 	}
+	if n.pol != nil && w.opt.Property == "C13" {
+		// the predicted size must match what WriteTo produces in EVERY state, not only
+		// when a snapshot happens to be taken
+		w.count("serialize_size")
+		var sz int
+		var cnt int64
+		cw := &countWriter{}
+		err, _ := guard(func() error { sz = n.pol.SerializeSize(); var e error; cnt, e = n.pol.WriteTo(cw); return e })
+		if err != nil {
+			w.violate(n, "C13", "write-err", fmt.Sprintf("[%s, block %d] WriteTo to a healthy sink failed: %v", phase, n.at, err))
+		} else if sz != cw.n || cnt != int64(cw.n) {
+			w.violate(n, "C13", "serialize-size", fmt.Sprintf("[%s, block %d] SerializeSize predicted %d, WriteTo reported %d, the sink received %d bytes", phase, n.at, sz, cnt, cw.n))
+		}
+	}
 	if n.isPartial() && w.on("partial") && !n.tainted && !n.cfg.FullRoots {
 		w.checkPartialContent(n, st, phase)
 	}
